@@ -24,4 +24,20 @@ MUTANTS = [
     dict(id='c01-q2R-v1-batch-small-w', props=['C01'], file=O,
          old='R[:, 1, 0] = 2.0*(q[:, 1]*q[:, 2]+q[:, 0]*q[:, 3])',
          new='R[:, 1, 0] = 2.0*(q[:, 1]*q[:, 2]+np.where(np.abs(q[:, 0])<1e-9, 0.0, q[:, 0])*q[:, 3])'),
+    # ---- C09
+    dict(id='c09-mult_R-block', props=['C09'], file=Q,
+         old='[self.x,  self.w,  self.z, -self.y],\n            [self.y, -self.z,  self.w,  self.x],',
+         new='[self.x,  self.w, -self.z,  self.y],\n            [self.y, -self.z,  self.w,  self.x],'),
+    dict(id='c09-conj-S-last', props=['C09'], file=Q,
+         old="return self.A*np.array([1.0, -1.0, -1.0, -1.0]) if self.scalar_vector else self.A*np.array([-1.0, -1.0, -1.0, 1.0])",
+         new="return self.A*np.array([1.0, -1.0, -1.0, -1.0])"),
+    dict(id='c09-matmul-reversed', props=['C09', 'C01'], file=Q,
+         old="        return self.product(q)\n\n    def __pow__", new="        return Quaternion(q, versor=False).product(self)\n\n    def __pow__"),
+    dict(id='c09-S-x-property', props=['C09'], file=Q,
+         old="return self.A[2] if self.scalar_vector else self.A[1]", new="return self.A[2] if self.scalar_vector else self.A[2]"),
+    dict(id='c09-inverse-versor-unconj', props=['C09'], file=Q,
+         old="        if self.is_versor():\n            return self.conjugate\n        return self.conjugate / np.linalg.norm(self.A)",
+         new="        if self.is_versor():\n            return self.conjugate if abs(self.w) > 1e-6 else self.A\n        return self.conjugate / np.linalg.norm(self.A)"),
+    dict(id='c09-q_prod-term', props=['C09', 'C01'], file=O,
+         old='pq[3] = p[0]*q[3] + p[1]*q[2] - p[2]*q[1] + p[3]*q[0]', new='pq[3] = p[0]*q[3] + p[1]*q[2] - p[2]*q[1] + p[0]*q[3]'),
 ]
